@@ -256,3 +256,197 @@ def impl_po_strings(text):
             msgid, msgctxt = e.stringlist_key
             out.append([e.span[0], "%s %s %s" % (_t(msgid), "None" if msgctxt is None else _t(msgctxt), _t(e.stringlist_val))])
     return out
+
+
+# ---------------------------------------------------------------- round 5 (additive): HISTORIES on one parser object
+# A history is a list of operations on ONE long-lived parser object; walk()/iter() results are generator OBJECTS that
+# may be consumed partially, abandoned, kept suspended, interleaved.  Operations:
+#   ["R", text] readUnicode      ["RC", text] readContents(utf-8 bytes)      ["RF", text] readFile(temp file)
+#   ["W", v]                 a complete pass: list(p.walk()) (v=0), list(p) (v=1), list(p.walk(only_localizable=True)) (v=2)
+#   ["P", v, k, how]         a NEW pass of which only k entries are consumed and which is then abandoned; how =
+#                            next | close | keep | break | zip | zipl | islice   (zipl = zip(gen, range(k)): pulls k+1 entries)
+#   ["K"]                    kt = p.parse(): the entries of the KeyedTuple and the key lookups on it
+#   ["G", v] ["N", g, k] ["D", g] ["X", g]   generator object g (numbered in order of "G"): create, k x next, list(g), close
+# Every consuming operation (W, P, K, N, D) gives one record: status part/done/runaway + the entries it obtained.
+class _Rec:
+    """records what is pulled out of a generator (zip(gen, shorter) pulls one more entry than it shows)"""
+
+    def __init__(self, it):
+        self.it, self.seen, self.stopped = it, [], False
+
+    def __iter__(self):
+        return self
+
+    def __next__(self):
+        try:
+            e = next(self.it)
+        except StopIteration:
+            self.stopped = True
+            raise
+        self.seen.append(e)
+        return e
+
+
+_tmp = {"dir": None, "n": 0}
+
+
+def _read_file(p, text):
+    import os
+    import tempfile
+    if _tmp["dir"] is None:
+        _tmp["dir"] = tempfile.mkdtemp(prefix="verif-hist-")
+    _tmp["n"] += 1
+    path = os.path.join(_tmp["dir"], "f%d" % _tmp["n"])
+    with open(path, "w", encoding="utf-8", newline="") as f:
+        f.write(text)
+    try:
+        p.readFile(path)
+    finally:
+        os.unlink(path)
+
+
+def _make(p, v):
+    if v == 0:
+        return p.walk()
+    if v == 1:
+        return iter(p)
+    return p.walk(only_localizable=True)
+
+
+def run_history(fmt, ops, show, lookups=True):
+    import itertools
+    p = get_parser(fmt)
+    gens, kept, recs = [], [], []
+    maxlen = 0
+
+    def drain(it):
+        got, status = [], "done"
+        limit = 2 * maxlen + 50
+        for e in it:
+            got.append(e)
+            if len(got) > limit:
+                status = "runaway"
+                break
+        return got, status
+
+    def take(it, k):
+        got = []
+        for _ in range(k):
+            try:
+                got.append(next(it))
+            except StopIteration:
+                return got, "done"
+        return got, "part"
+
+    for i, op in enumerate(ops):
+        tag = op[0]
+        rec = None
+        if tag in ("R", "RC", "RF"):
+            maxlen = max(maxlen, len(op[1]))
+            if tag == "R":
+                p.readUnicode(op[1])
+            elif tag == "RC":
+                p.readContents(op[1].encode("utf-8"))
+            else:
+                _read_file(p, op[1])
+        elif tag == "W":
+            got, status = drain(_make(p, op[1]))
+            rec = {"status": status, "ents": got}
+        elif tag == "K":
+            kt = p.parse()
+            got = list(kt)
+            rec = {"status": "done", "ents": got}
+            if lookups:
+                look = []
+                for j, e in enumerate(got):
+                    try:
+                        key = e.key
+                        hit = kt[key]
+                        idx = [n for n, x in enumerate(got) if x is hit]
+                        look.append([j, idx[0] if idx else -1, bool(key in kt)])
+                    except Exception as ex:                       # noqa
+                        look.append([j, "%s: %s" % (type(ex).__name__, ex), False])
+                rec["lookups"] = look
+                rec["keys"] = [repr(getattr(e, "key", None)) for e in got]
+        elif tag == "P":
+            v, k, how = op[1], op[2], op[3]
+            it = _make(p, v)
+            if how in ("next", "close", "keep"):
+                got, status = take(it, k)
+                if how == "close":
+                    it.close()
+                elif how == "keep":
+                    kept.append(it)
+            elif how == "break":
+                got, status = [], "part"
+                if k > 0:
+                    for e in it:
+                        got.append(e)
+                        if len(got) == k:
+                            break
+                    else:
+                        status = "done"
+            else:
+                r = _Rec(it)
+                if how == "zip":
+                    for _ in zip(range(k), r):
+                        pass
+                elif how == "zipl":
+                    for _ in zip(r, range(k)):
+                        pass
+                else:
+                    list(itertools.islice(r, k))
+                got, status = r.seen, ("done" if r.stopped else "part")
+                del r
+            del it
+            rec = {"status": status, "ents": got}
+        elif tag == "G":
+            gens.append(_make(p, op[1]))
+        elif tag == "N":
+            got, status = take(gens[op[1]], op[2])
+            rec = {"status": status, "ents": got}
+        elif tag == "D":
+            got, status = drain(gens[op[1]])
+            rec = {"status": status, "ents": got}
+        elif tag == "X":
+            gens[op[1]].close()
+        if rec is not None:
+            rec["i"] = i
+            rec["shown"] = [show(e) for e in rec["ents"]]
+            recs.append(rec)
+    return p, recs
+
+
+def impl_history(fmt, ops):
+    """C01: spans of every entry obtained by every consuming operation + their source texts; plus, for every text the
+    history read, the full and the localizable view of a FRESH parser object (differential reference)"""
+    p, recs = run_history(fmt, ops, show_entry)
+    out = []
+    for r in recs:
+        o = {"i": r["i"], "status": r["status"], "shown": r["shown"], "joined": "".join(e.all for e in r["ents"]),
+             "kinds": "".join(kind_of(e) for e in r["ents"])}
+        if "lookups" in r:
+            o["lookups"], o["keys"] = r["lookups"], r["keys"]
+        out.append(o)
+    fresh = {}
+    for op in ops:
+        if op[0] in ("R", "RC", "RF") and op[1] not in fresh:
+            q = get_parser(fmt)
+            q.readUnicode(op[1])
+            limit = 2 * len(op[1]) + 50
+            full = []
+            for e in q.walk():
+                full.append(e)
+                if len(full) > limit:
+                    break
+            q2 = get_parser(fmt)
+            q2.readUnicode(op[1])
+            loc = []
+            for e in q2:
+                loc.append(e)
+                if len(loc) > limit:
+                    break
+            fresh[op[1]] = {"full": [show_entry(e) for e in full], "loc": [show_entry(e) for e in loc],
+                            "joined": "".join(e.all for e in full)}
+    canon = " || ".join(" | ".join([("stuck" if r["status"] == "runaway" else r["status"])] + r["shown"]) for r in out)
+    return {"recs": out, "fresh": fresh, "canon": canon}
